@@ -441,6 +441,7 @@ def run(chk):
     latch_rule(chk, repo)
     connect_rule(chk, repo)
     progress_rule(chk, repo)
+    agree_rule(chk, repo)
 
 
 def latch_rule(chk, repo, rule="C03.latch"):
@@ -548,3 +549,70 @@ def progress_rule(chk, repo, rule="C03.progress"):
                               path=g.fmt_path(p1 + p2[1:]))
     if not bad:
         chk.ok(rule, pp, f"in each of the {len(tests)} chunk states, every path that consumes bytes and then asks for more input has advanced the parser state")
+
+
+def _normalisers(fn_node, site, name: str):
+    """Whitespace normalisations applied to local `name` before `site`, each with whether it is conditional on lax mode: assignments
+    `name = <expr with .strip()/.lstrip()/.rstrip()>` that precede (an ancestor statement of) the site in the same statement list, either
+    directly or as the body of an `if <lax>:` in that list."""
+    out = set()
+    before = []  # statements that precede the site in one of its enclosing statement lists
+    n = K.stmt_of(site)
+    while n is not None and n is not fn_node:
+        blk = PC._block_of(n)
+        if blk and n in blk:
+            before.extend(blk[:blk.index(n)])
+        n = getattr(n, "parent", None)
+        while n is not None and n is not fn_node and not isinstance(n, ast.stmt):
+            n = getattr(n, "parent", None)
+    for b in before:
+        cands = []
+        if isinstance(b, ast.Assign):
+            cands.append((b, False))
+        elif isinstance(b, ast.If) and "_lax" in norm.raw(b.test) and not b.orelse:
+            cands.extend((x, True) for x in b.body if isinstance(x, ast.Assign))
+        for st, guard in cands:
+            if not (len(st.targets) == 1 and isinstance(st.targets[0], ast.Name) and st.targets[0].id == name):
+                continue
+            for c in ast.walk(st.value):
+                if isinstance(c, ast.Call) and isinstance(c.func, ast.Attribute) and c.func.attr in ("strip", "lstrip", "rstrip"):
+                    arg = norm.raw(c.args[0]) if c.args else ""
+                    out.add((c.func.attr, arg, "lax" if guard else "always"))
+    return out
+
+
+def agree_rule(chk, repo, rule="C03.agree"):
+    """Sibling validation sites agree: when the same grammar (regex constant) is applied to the same token at more than one place of a
+    resumable parser - typically once on the complete line and once, early, on the part that has arrived - the lax-mode whitespace
+    normalisation in front of the check must be the same at every site; otherwise a token the complete-line path accepts is refused when the
+    line is split by the transport (or the other way round)."""
+    pp = repo.func(MOD, "HttpPayloadParser.feed_data")
+    sites = {}
+    for c in prog.calls_in(pp.node):
+        f = norm.raw(c.func)
+        if f == "re.fullmatch" and len(c.args) >= 2:
+            gname, arg = norm.raw(c.args[0]), c.args[1]
+        elif isinstance(c.func, ast.Attribute) and c.func.attr == "fullmatch" and c.args and f != "re.fullmatch":
+            gname, arg = norm.raw(c.func.value), c.args[0]
+        else:
+            continue
+        sites.setdefault(gname, []).append((c, arg))
+    n = 0
+    for gname, lst in sorted(sites.items()):
+        sigs = []
+        for c, arg in lst:
+            n += 1
+            nm = arg.id if isinstance(arg, ast.Name) else None
+            sig = _normalisers(pp.node, c, nm) if nm else set()
+            inline = {(x.func.attr, norm.raw(x.args[0]) if x.args else "", "always") for x in ast.walk(arg) if isinstance(x, ast.Call) and isinstance(x.func, ast.Attribute) and x.func.attr in ("strip", "lstrip", "rstrip")}
+            sigs.append((c, frozenset(s_ for s_ in (sig | inline) if s_[1] == "")))  # only argument-less (whitespace) stripping is a grammar difference
+        ref = sigs[0][1]
+        diff = [(c, sg) for c, sg in sigs[1:] if sg != ref]
+        if diff:
+            c, sg = diff[0]
+            chk.violation(rule, c, K.short(c), f"same normalisation as line {sigs[0][0].lineno}: {sorted(ref) or 'none'}",
+                          f"`{gname}` is checked at {len(lst)} places of the body parser under different whitespace normalisation ({sorted(ref) or 'none'} vs {sorted(sg) or 'none'}): "
+                          "what the complete-line path accepts (lax mode strips blanks around the chunk size) the other path refuses, so the same bytes are accepted or rejected depending on where the transport split the line")
+        else:
+            chk.ok(rule, lst[0][0], f"`{gname}`: {len(lst)} validation site(s), one normalisation {sorted(ref) or '(none)'}")
+    chk.expect_count(rule, n, 1, "regex validations in HttpPayloadParser.feed_data")
